@@ -258,7 +258,7 @@ def main(argv=None):
         else:
             real.append((rec, path))
     for kid, (k, rec, path) in seen_known.items():
-        print("KNOWN-FINDING: property=%s %s" % (prop_id, k["text"]))
+        print("KNOWN-FINDING: %s" % k["text"].split(" ; ")[0])
     for rec, path, rp in nonrepro:
         inconclusive.append("%s: counterexample for %r did not reproduce natively (%s) -- encoding or stub is wrong; see %s"
                             % (rec["case"], rec["label"], rp.get("status"), path))
